@@ -337,7 +337,8 @@ class Ctx:
         os.makedirs(os.path.join(ROOT, "evidence"), exist_ok=True)
         with open(os.path.join(ROOT, "evidence", self.prop + ".json"), "w") as f:
             json.dump(ev, f, indent=1)
-        shutil.rmtree(self.work, ignore_errors=True)
+        if not os.environ.get("VERIF_KEEP"):
+            shutil.rmtree(self.work, ignore_errors=True)
         return 1 if violations else 0
 
 
